@@ -316,17 +316,3 @@ Proof.
 Qed.
 Example good_seg_ex : good_seg [50; 48; 50; 54; 84; 49; 45; 48; 48; 48; 49] /\ good_seg s_latest /\ good_seg (id_of_k 12).
 Proof. repeat split; repeat constructor. Qed.
-
-(** Not proved (kept visible; listed in NOT_PROVED of lib/props/c14.py): the convenience
-    methods MessageHeader.GetMessage/GetSource/Delete and Message.GetSource/Delete, which
-    compose two round trips through an id taken from the first answer. Needs, beyond
-    [client_op_effect]: handles are unique within a mailbox ([store_wf], an invariant of every
-    store reachable by [exec_spec]) and the decimal id round trip
-    [handle_of_id (id_of_k k) = Kth k]. These methods are exercised by the correspondence run. *)
-Definition store_wf (st : spec_store) : Prop :=
-  forall mb, NoDup (map e_k (box mb (live st))).
-Definition client_convenience_effect_stmt : Prop :=
-  forall mfa cfg base st op mb,
-    basic_op op = false -> good_name (cop_name op) -> op_id_ok op -> Forall good_seg base ->
-    mfa (cop_name op) = Some mb -> good_name mb -> mfa mb = Some mb -> store_wf st ->
-    spec_cop mfa cfg st op = Some (client_do mfa cfg base (join_slash base) st op).
